@@ -69,6 +69,14 @@ Section Statements.
        forall x y k, (In (x, y, k) (edge_triples stream) /\ In y (map fst stream)) <->
                      In (y, x, k) (edge_triples rv)).
   Proof. exact (adapters_thm g W shown). Qed.
+
+  (** prioritize_branch(x): the output is still the same nodes in an edge-respecting order
+      ([topo_ok], see C39_adapters) and its first node is x or a descendant of x - it reaches x
+      through recorded non-missing edges. *)
+  Theorem C39_prioritize : forall (stream out : stream_t) (x : nat),
+    stream_holds g shown stream -> prio_ok g stream out x = true ->
+    exists h es rest, out = (h, es) :: rest /\ sreach stream h x /\ anc g x h.
+  Proof. exact (prio_ok_sound g W shown). Qed.
 End Statements.
 
 Check C39_ancestry_implied : forall (g : graph), wf g -> forall (shown : list nat) (skip : bool)
@@ -92,3 +100,4 @@ Print Assumptions C39_indirect.
 Print Assumptions C39_ancestry_implied.
 Print Assumptions C39_checker_sound.
 Print Assumptions C39_adapters.
+Print Assumptions C39_prioritize.
